@@ -143,6 +143,47 @@ Example C04_example_pending_policy :
   published (run (ex_pending_policy ++ [Commit]) init) = [0; 3; 4].
 Proof. vm_compute. repeat split; reflexivity. Qed.
 
+(* a merge whose merge() failed (I/O error while writing the merged segment) leaves no trace *)
+Theorem C04_failed_merge_no_effect : forall k s,
+  same_content s (abort_merge k s) /\ published (abort_merge k s) = published s.
+Proof. exact abort_merge_no_effect. Qed.
+
+(* the end of a merge of UNCOMMITTED segments touches the uncommitted register only: the committed register and
+   meta.json (searchers, rollback) are unchanged ... *)
+Theorem C04_end_merge_uncommitted : forall k s r,
+  nth_error (w_merges s) k = Some r ->
+  r_epoch r = w_epoch s ->
+  contains_all (w_unc s) (r_srcs r) = true ->
+  let s' := end_merge k s in
+  w_com s' = w_com s /\ w_meta s' = w_meta s /\ published s' = published s /\ w_copstamp s' = w_copstamp s /\
+  w_unc s' = remove_segs (w_unc s) (r_srcs r) ++
+             match option_map (reconcile (w_queue s) (w_copstamp s)) (r_result r) with Some e => [e] | None => [] end.
+Proof. exact end_merge_uncommitted. Qed.
+
+(* ... and the end of a merge of COMMITTED segments publishes exactly the committed register (sources replaced
+   by the reconciled merged entry): never a document of a merged-but-uncommitted segment *)
+Theorem C04_end_merge_committed_publishes_committed_only : forall k s r,
+  nth_error (w_merges s) k = Some r ->
+  r_epoch r = w_epoch s ->
+  contains_all (w_unc s) (r_srcs r) = false -> contains_all (w_com s) (r_srcs r) = true ->
+  let s' := end_merge k s in
+  w_unc s' = w_unc s /\ w_meta s' = w_com s' /\
+  w_com s' = filter nonempty (remove_segs (w_com s) (r_srcs r) ++
+             match option_map (reconcile (w_queue s) (w_copstamp s)) (r_result r) with Some e => [e] | None => [] end).
+Proof. exact end_merge_committed_publishes_committed_only. Qed.
+
+(* non-vacuity: two uncommitted segments are merged, then the committed segments are merged (meta.json is saved
+   without a commit): the uncommitted documents are not published, and a rollback forgets them *)
+Definition ex_unc_then_com : list op :=
+  [Add 0 0; Commit; Add 1 1; Commit; Add 2 0; Finalize; Add 3 1; Finalize; StartMerge [2; 3]; EndMerge 0%nat;
+   StartMerge [0; 1]; EndMerge 0%nat].
+Example C04_example_unc_then_com :
+  published (run ex_unc_then_com init) = [0; 1] /\ f0401_class ex_unc_then_com = false /\
+  published (run (ex_unc_then_com ++ [Rollback]) init) = [0; 1] /\
+  published (run (ex_unc_then_com ++ [Commit]) init) = [0; 1; 2; 3] /\
+  published (run [Add 0 0; Commit; Add 1 1; Commit; StartMerge [0; 1]; AbortMerge 0%nat] init) = [0; 1].
+Proof. vm_compute. repeat split; reflexivity. Qed.
+
 (* F0401: IndexWriter::merge on uncommitted segments whose delete cursors differ.  The state machine
    (tied to the implementation on these very histories) publishes something else than the same
    history without the merge: a document added after the delete disappears (older segment first), or
@@ -209,4 +250,7 @@ Print Assumptions C04_end_merge_reconciles.
 Print Assumptions C04_advance_composes.
 Print Assumptions C04_committed_merge_target.
 Print Assumptions C04_committed_merge_ignores_pending.
+Print Assumptions C04_failed_merge_no_effect.
+Print Assumptions C04_end_merge_uncommitted.
+Print Assumptions C04_end_merge_committed_publishes_committed_only.
 Print Assumptions C04_explicit_uncommitted_merge_refuted.
